@@ -26,6 +26,128 @@ def snapshot(t):
     return {k: t.get_ndata(k).copy() for k in COLS}
 
 
+# ---- "later edits of either side cannot leak into the other" ----------------------------------------------------------------------------------
+# What a tree holds is more than its seven standard columns: the header comments (a list, written out by to_swc), the source, any further column.
+# After every step the result and the input(s) are EDITED IN PLACE, one side at a time, and the other side is read again through the public
+# interface; every edit is undone afterwards (in place as well), so the pipeline goes on from exactly the objects the operation returned.
+# where the tree a pipeline starts from comes from: built from arrays without / with header comments, or read from SWC text
+ORIGINS = ["arrays", "arrays+comments", "swc-text"]
+# in-place edits of the header comments (those that need an entry fall back to `append` on an empty list)
+COMMENT_EDITS = ["append", "insert", "extend", "iadd", "setitem", "delitem", "clear", "reverse-and-append"]
+COMMENT_WORDS = ["traced by hand", "scale 1.0 1.0 1.0", "ORIGINAL_SOURCE NeuroLucida", "", "  soma at 0 0 0", "CREATURE mouse", "region: CA1", "v3"]
+
+
+def rand_comments(rng, nonempty=False):
+    return [rng.choice(COMMENT_WORDS) for _ in range(rng.randint(1 if nonempty else 0, 3))]
+
+
+def meta(t):
+    """what a tree holds besides its columns"""
+    c = getattr(t, "comments", None)
+    return (list(c) if isinstance(c, (list, tuple)) else repr(c)), getattr(t, "source", None)
+
+
+def observe(t, text=False):
+    """everything a user can read off a tree: header comments, source, every column (any further one included) and - `text` - what to_swc writes"""
+    o = {}
+    o["comments"], o["source"] = meta(t)
+    nd = getattr(t, "ndata", None)
+    for k in (list(nd.keys()) if isinstance(nd, dict) else COLS):
+        try:
+            a = np.asarray(t.get_ndata(k))
+            o["column " + str(k)] = (str(a.dtype), list(a.shape), a.tobytes() if a.dtype.kind in "biufc" else repr(a.tolist()))
+        except Exception as e:  # noqa: BLE001
+            o["column " + str(k)] = f"<{type(e).__name__}>"
+    if text:
+        try:
+            o["to_swc()"] = t.to_swc()
+        except Exception as e:  # noqa: BLE001
+            o["to_swc()"] = f"<{type(e).__name__}>"
+    return o
+
+
+def _other_values(a, step):
+    if a.dtype.kind in "iuf":
+        with np.errstate(all="ignore"):
+            return np.where(np.isfinite(a), a + step, 0).astype(a.dtype) if a.dtype.kind == "f" else (a + step).astype(a.dtype)
+    if a.dtype.kind == "b":
+        return ~a
+    return None
+
+
+def edit_in_place(t, kind, token):
+    """edit everything `t` holds, in place; returns (the parts edited, undo).
+    columns: other values are written INTO every array (`a[...] = ...`), then the column is bound to a new array (`t.ndata[k] = ...`);
+    comments: the list `t.comments` is edited with `kind` (never rebound)."""
+    undo, parts = [], []
+    nd = getattr(t, "ndata", None)
+    if isinstance(nd, dict):
+        for k in list(nd.keys()):
+            a = nd[k]
+            if not isinstance(a, np.ndarray) or a.size == 0:
+                continue
+            v1, v2 = _other_values(a, 1), _other_values(a, 2)
+            if v1 is None:
+                continue
+            saved = a.copy()
+            if a.flags.writeable:
+                a[...] = v1
+                parts.append("column[...] = other values")
+            nd[k] = v2
+            parts.append("ndata[column] = another array")
+            undo.append((nd, k, a, saved))
+    c = getattr(t, "comments", None)
+    saved_c = None
+    if isinstance(c, list):
+        saved_c = list(c)
+        k = kind if c or kind in ("append", "insert", "extend", "iadd") else "append"
+        if k == "append":
+            c.append(token)
+        elif k == "insert":
+            c.insert(0, token)
+        elif k == "extend":
+            c.extend([token, "second line"])
+        elif k == "iadd":
+            c += [token]
+        elif k == "setitem":
+            c[len(c) // 2] = token
+        elif k == "delitem":
+            del c[0]
+        elif k == "clear":
+            c.clear()
+        else:
+            c.reverse(); c.append(token)
+        parts.append(f"comments.{k}")
+
+    def restore():
+        for nd_, k_, a_, saved_ in reversed(undo):
+            nd_[k_] = a_
+            if a_.flags.writeable:
+                a_[...] = saved_
+        if saved_c is not None:
+            c[:] = saved_c
+    return sorted(set(parts)), restore
+
+
+def later_edits(y, inputs, kind, k, text=False):
+    """edit the result and look at the inputs; edit the inputs and look at the result. `inputs`: [(name, tree)]. Returns the leaks seen."""
+    leaks = []
+    sides = [("result", y, inputs)] + [(name, t, [("result", y)]) for name, t in inputs]
+    for name, edited, watched in sides:
+        before = [observe(w, text) for _, w in watched]
+        parts, restore = edit_in_place(edited, kind, f"edited at step {k}")
+        try:
+            after = [observe(w, text) for _, w in watched]
+        finally:
+            restore()
+        for (wname, _), b, a in zip(watched, before, after):
+            changed = sorted(key for key in set(a) | set(b) if a.get(key) != b.get(key))
+            if changed:
+                leaks.append({"edited": name, "edits": parts, "seen_in": wname, "changed": changed,
+                              "comments_before": b.get("comments"), "comments_after": a.get("comments")})
+    return leaks
+
+
 # ---- the vocabulary of pipeline steps -------------------------------------------------------------------------------------------------------
 # A step is a string `base[|flag]*`, fully chosen by `cases` (only numeric arguments are drawn in `run`, from the case's own seed):
 #   <unary op>[|keep]             one tree in, one tree out; `keep`: the result is checked, the pipeline goes on FROM THE INPUT (the same tree
@@ -281,6 +403,21 @@ def make_operand(mode, cur, pool, rng, info, legacy=False):
     return other
 
 
+def start_tree(case):
+    """the tree a pipeline starts from, by `origin`"""
+    origin = case.get("origin", "arrays")
+    if origin == "arrays":
+        return gen.make_tree(case["tree"])
+    t = gen.make_tree(case["tree"], comments=list(case.get("comments") or []), source=case.get("source", ""))
+    if origin == "arrays+comments":
+        return t
+    if origin == "swc-text":
+        with warnings.catch_warnings():
+            warnings.simplefilter("ignore")
+            return lib().Tree.from_swc(io.StringIO(t.to_swc()))
+    raise ValueError(f"unknown origin {origin}")
+
+
 class Pipeline(Suite):
     name = "c03.pipeline"
     case_timeout = 120
@@ -331,6 +468,27 @@ class Pipeline(Suite):
                 u = rng.random()
                 ops.append(rng.choice(vocab) + "|obj" + ("|keep" if rng.random() < 0.15 else "") if u < 0.6 else "members" if u < 0.7 else rand_step(rng))
             out.append({"class": f"reuse/random/{shape}", "family": "reuse", "pattern": "random", "v": 2, "tree": tr, "ops": ops, "seed": rng.randrange(10**6)})
+        # (4) later edits of either side: what a tree holds besides its seven columns (header comments, source, further columns) depends on
+        #     where it comes from - built from arrays without / with comments, read from SWC text - and on the operations it went through;
+        #     every operation (and both operand orders of cat_tree) on a tree of every origin, then short pipelines, each with one of the
+        #     in-place edits of the comment list (the column edits are the same for every case). These cases also compare the to_swc() text.
+        singles = [u for u in UNARY] + ["cat|fresh", "cat|fresh|swap", "cat|self", "cat|derived|swap"]
+        plans = [(o, [s1]) for o in ORIGINS for s1 in singles]
+        for _ in range(60 if not big else 400):
+            ops = [rand_step(rng) for _i in range(rng.randint(2, 4 if not big else 10))]
+            plans.append((rng.choice(ORIGINS), ([rng.choice(PRUNERS)] if rng.random() < 0.4 else []) + ops))
+        for origin, ops in plans:
+            shape = gen.pick_shape(rng, k); k += 1
+            if shape in ("single", "two"):
+                shape = "random"
+            tr = gen.tree_case(rng, rng.choice([3, 4, 5, 6, 7, 9, 12]), shape, numbering=rng.choice(["sorted", "root0", "root0"]), coords="dyadic", types="mixed")
+            tr["xyz"] = [[c / 16.0 for c in p] for p in tr["xyz"]]
+            edit = rng.choice(COMMENT_EDITS)
+            case = {"class": f"edits/{origin}/{edit}", "family": "edits", "v": 3, "origin": origin, "edit": edit, "tree": tr, "ops": ops, "seed": rng.randrange(10**6)}
+            if origin != "arrays":
+                case["comments"] = rand_comments(rng, nonempty=rng.random() < 0.8)
+                case["source"] = rng.choice(["", "neuron.swc", "/data/n 1.swc"])
+            out.append(case)
         return out
 
     def run(self, case):
@@ -340,7 +498,15 @@ class Pipeline(Suite):
         L = lib()
         rng = _r.Random(case["seed"])
         legacy = case.get("v", 1) < 2          # stored cases of earlier rounds keep the arguments they were stored with
-        cur = gen.make_tree(case["tree"])
+        edit_kind = case.get("edit", "append")
+        text = case.get("v", 1) >= 3       # the cases of the `edits` family also compare what to_swc() writes
+        try:
+            cur = start_tree(case)
+        except CaseTimeout:
+            raise
+        except Exception as e:  # noqa: BLE001
+            import traceback
+            return {"exc": type(e).__name__, "msg": str(e)[:300], "tb": traceback.format_exc()[-1200:], "at": f"building the start tree ({case.get('origin', 'arrays')})", "n_in": case["tree"]["n"], "steps": []}
         pool = [cur]                  # every well-formed tree of this pipeline so far (inputs and results)
         objs = {}                     # the transform objects of this pipeline (steps flagged `obj`)
         steps = []
@@ -356,12 +522,14 @@ class Pipeline(Suite):
                         continue
                     n = cur.number_of_nodes()
                     before = snapshot(cur)
+                    before_meta = meta(cur)
                     wide_in = [c for c in COLS if cur.get_ndata(c).dtype.itemsize == 8]
                     other = None
                     nosort_root = None
                     if base == "cat":
                         other = make_operand(next((f for f in flags if f in CAT_OPERANDS), "fresh"), cur, pool, rng, info, legacy)
                         before_other = snapshot(other)
+                        before_other_meta = meta(other)
                         wide_in += ["other:" + c for c in COLS if other.get_ndata(c).dtype.itemsize == 8]
                         t1, t2 = (other, cur) if "swap" in flags else (cur, other)
                         n1, n2 = t1.number_of_nodes(), t2.number_of_nodes()
@@ -386,11 +554,18 @@ class Pipeline(Suite):
                     rec["other_pids"] = info["other_pids"]
                 if "reused" in info:
                     rec["reused"] = info["reused"]          # how often this step's transform object had been called before
-                rec["input_changed"] = [c for c in COLS if not np.array_equal(before[c], cur.get_ndata(c))]
+                rec["input_changed"] = [c for c in COLS if not np.array_equal(before[c], cur.get_ndata(c))] + [w for w, a, b in zip(("comments", "source"), before_meta, meta(cur)) if a != b]
                 rec["shares"] = [(a, b) for a in COLS for b in COLS if np.shares_memory(cur.get_ndata(a), y.get_ndata(b))]
                 if other is not None:
                     rec["input_changed"] += ["other:" + c for c in COLS if not np.array_equal(before_other[c], other.get_ndata(c))]
+                    rec["input_changed"] += ["other:" + w for w, a, b in zip(("comments", "source"), before_other_meta, meta(other)) if a != b]
                     rec["shares"] += [("other:" + a, b) for a in COLS for b in COLS if np.shares_memory(other.get_ndata(a), y.get_ndata(b))]
+                try:
+                    rec["leaks"] = later_edits(y, [("input", cur)] + ([("other input", other)] if other is not None and other is not cur else []), edit_kind, k, text)
+                except CaseTimeout:
+                    raise
+                except Exception as e:  # noqa: BLE001 - a tree that cannot be edited / read back: reported, never a crash
+                    rec["leaks"] = [{"edited": "?", "edits": [], "seen_in": "?", "changed": [f"<{type(e).__name__}: {str(e)[:200]}>"]}]
                 rec["finite"] = bool(np.all(np.isfinite(y.xyz())) and np.all(np.isfinite(y.r())))
                 rec["nosort_root"] = nosort_root
                 steps.append(rec)
@@ -454,6 +629,11 @@ class Pipeline(Suite):
                 out.append((f"input-modified/{st['op']}", f"{what}: the input's columns {st['input_changed']} changed"))
             if st["shares"]:
                 out.append((f"shares-storage/{st['op']}", f"{what}: result shares memory with the input: {st['shares'][:4]}"))
+            for lk in st.get("leaks") or []:
+                out.append((f"edit-leaks/{st['op']}", f"{what}: a later in-place edit of the {lk.get('edited')} ({', '.join(map(str, lk.get('edits', [])))}) changed the {lk.get('seen_in')}'s {lk.get('changed')}"
+                                                      + (f" (its comments: {lk.get('comments_before')} -> {lk.get('comments_after')})" if "comments" in (lk.get("changed") or []) else "")
+                                                      + f"; start tree: {case.get('origin', 'arrays')}, comments={case.get('comments')}"))
+                break
             if out:
                 break
         return out[:3]
@@ -466,6 +646,8 @@ class Pipeline(Suite):
         wide = "/f64in" if any(any(c.split(":")[-1] in "xyzr" for c in st.get("wide_in", [])) for st in steps) else ""
         if case.get("family") == "reuse":
             return f"reuse/{case.get('pattern', '?')}{wide}"
+        if case.get("family") == "edits":
+            return f"edits/{case.get('origin')}/{case.get('edit')}/len{min(len(case['ops']), 4)}"
         return f"{case.get('family', 'random')}/len{min(len(case['ops']) // 3 * 3, 12)}{wide}"
 
 
@@ -475,7 +657,10 @@ TECHNIQUE = ("Lean 4 theorem by induction over operation lists: each topology-le
              "freshness from C09 + pipelines of the real operations with well-formedness, input hashes and np.shares_memory checked after every step: random "
              "pipelines plus every operation applied to the result of every operation (column dtypes / anything remembered on the tree object carry over), "
              "with read-only queries between steps, inputs handed to a second operation, cat_tree operands that were queried / used / derived / the tree itself, "
-             "and pipelines in which one transform object serves several steps (its own result, the same input twice, another tree, as a member of Transforms)")
+             "and pipelines in which one transform object serves several steps (its own result, the same input twice, another tree, as a member of Transforms); "
+             "after every step the result and the input(s) are edited in place, one side at a time (every column written into and rebound, the header comments "
+             "appended / inserted / assigned / deleted / cleared), the other side is read back (comments, source, every column, to_swc text) and the edit undone, "
+             "for start trees built from arrays without / with comments and read from SWC text")
 LEVEL_TEXT = ("Kernel-checked: for every well-formed parent list and every list of the modelled operations (sort, re-root with/without sort, get_subtree, to_subtree, "
               "coordinate/radius transforms, SWC round trip), every intermediate result is well-formed — ids are positions, one root, parents valid, every node reaches the "
               "root — and sorted where the operation documents it; re-rooting without sort keeps the new root in place. Copies allocate fresh arrays (C09), so inputs are "
